@@ -191,6 +191,25 @@ func c10Lifecycle(w *ndWriter, mapped, useHandler bool, variant int) {
 	r.finish(w, "ok")
 }
 
+// the SubscribeOn handler is busy (for longer than any patience a Publish might have) when a value is published: the delivery still
+// happens on the handler, once, after it has become free
+func c10BusyHandler(w *ndWriter, mapped bool) {
+	r := newC10(mapped, true)
+	r.subscribe()
+	r.subscribe()
+	release := make(chan struct{})
+	started := make(chan struct{})
+	go r.handler.Post(func() { close(started); <-release })
+	select {
+	case <-started:
+	case <-time.After(2 * time.Second):
+	}
+	go func() { time.Sleep(450 * time.Millisecond); close(release) }()
+	r.publish(1, 10) // returns when the handler has taken the delivery (bounded by publish's own watchdog)
+	r.publish(2, 20)
+	r.finish(w, "ok")
+}
+
 // behaviours of a subscription inside its callback (for the outer value 100 only)
 // 0 noop, 1 unsubscribe itself, 2/3 unsubscribe another one, 4 subscribe a new one, 5 publish a nested value
 func c10Reentrant(w *ndWriter, behav []int, mapped, useHandler bool) {
@@ -440,7 +459,8 @@ func c10Main(args []string) error {
 			c10Lifecycle(w, mapped, false, 0)
 			c10Lifecycle(w, mapped, true, 0)
 			c10Lifecycle(w, mapped, true, 1)
-			runs += 3
+			c10BusyHandler(w, mapped)
+			runs += 4
 		}
 		for i := 0; i < rounds; i++ {
 			c10Stress(w, rng, 1+rng.Intn(4), 1+rng.Intn(4), i%4 == 1, i%4 == 2)
